@@ -298,11 +298,23 @@ def gen_linbig(rng, tier):
     return out
 
 
+def gen_lubig(rng, tier):
+    return ["lubig" + l[len("linbig"):] for l in gen_linbig(rng, tier)]
+
+
+# linscale: the cases of linsolve run by the real double instantiation at two scales (1 and 2^-70)
+def gen_linscale(rng, tier):
+    lines = gen_linsolve(rng, "quick")
+    k = 200 if tier == "quick" else 2000
+    lines = lines if len(lines) <= k else rng.sample(lines, k)
+    return ["linscale" + l[len("linsolve"):] for l in lines]
+
+
 def lu_histogram(lines):
     h = {"alg": {}, "n": {}, "L": {}, "order": {}, "partial_group": 0}
     for l in lines:
         t = l.split()
-        if t[0] not in ("lu", "linsolve", "linbig"):
+        if t[0] not in ("lu", "linsolve", "linbig", "lubig", "linscale"):
             continue
         alg, csc, L, nb, n = map(int, t[1:6])
         h["alg"][str(alg)] = h["alg"].get(str(alg), 0) + 1
